@@ -17,6 +17,12 @@ class SeqProp(PropCheck):
     focus = None
     shard = 60
     extra_targets = ["Model/Chan.v", "Model/SeqSnap.v"]
+    coverage_files = [
+        "pulser-core/pulser/sequence/_schedule.py",
+        "pulser-core/pulser/sequence/sequence.py",
+        "pulser-core/pulser/sequence/_basis_ref.py",
+        "pulser-core/pulser/channels/base_channel.py",
+    ]
 
     def gen_case(self, rng: random.Random, tier: str):
         n_ops = rng.randint(3, 25) if tier == "quick" else rng.randint(3, 60)
